@@ -179,7 +179,9 @@ func cmdRun(args []string) int {
 			var r BatchResult
 			if json.Unmarshal(data, &r) == nil {
 				out.res = &r
-				ntFiles = appendLocked(&mu, ntFiles, base+".json.nt")
+				mu.Lock()
+				ntFiles = append(ntFiles, base+".json.nt")
+				mu.Unlock()
 				return out
 			}
 		}
@@ -455,12 +457,6 @@ func cmdRun(args []string) int {
 		return 2
 	}
 	return 0
-}
-
-func appendLocked(mu *sync.Mutex, s []string, v string) []string {
-	mu.Lock()
-	defer mu.Unlock()
-	return append(s, v)
 }
 
 func pickMsg(v ViolationRec) string {
